@@ -649,20 +649,16 @@ impl FunctionCall {
 impl Expression for FunctionCall {
     fn resolve(&self, ctx: &mut Context) -> Resolved {
         self.expr.resolve(ctx).map_err(|err| match err {
+            // Closure runners turn a `return` inside a closure body into the value of that
+            // iteration, so a `return` that arrives here was raised by an argument expression
+            // and ends the program like any other `return`.
             ExpressionError::Abort { .. }
+            | ExpressionError::Return { .. }
             | ExpressionError::Fallible { .. }
             | ExpressionError::Missing { .. } => {
                 // propagate the error
                 err
             }
-            ExpressionError::Return { span, .. } => ExpressionError::Error {
-                message: "return cannot be used inside closures".to_owned(),
-                labels: vec![Label::primary(
-                    "return cannot be used inside closures",
-                    span,
-                )],
-                notes: Vec::new(),
-            },
             ExpressionError::Error {
                 message,
                 mut labels,
